@@ -3,7 +3,7 @@
 import ast
 
 from ..astutil import call_name, walk_local_stmt
-from ..interp import NAN, Unsup, W
+from ..interp import NAN, Pos, Unsup, W
 from ..loader import AnalysisError, norm, primitives
 from ..model import build_models
 from ..routing import CONTAINERS, LEAVES, PARTITION, WEIGHT_CLASSES_NUMPY, configs, run_fill, run_numpy, weight_kind
@@ -66,6 +66,13 @@ def run(repo, rep, tier):
                     raise AnalysisError(f"{fill.construct}: {e}")
                 for p in paths:
                     if p.outcome == "raise":
+                        # "any numeric quantity value is accepted by fill without error": a numeric datum must not raise
+                        numeric = q is NAN or isinstance(q, Pos)
+                        if numeric and c.name != "Categorize":
+                            r1.ob(False, f"{cfg.desc} fill: {label} raises")
+                            rep.finding("R5.1", fill, fill.node, f"{cfg.desc}: fill raises {p.raises[0] if p.raises else 'an exception'} for a numeric "
+                                        f"datum in region `{label}`: every numeric quantity value must be accepted and routed to exactly one bin",
+                                        stmt=f"fill {label.replace(' ', '')}: raises")
                         continue
                     check_path(rep, r1, r2, c, cfg, fill, label, q, p, "fill")
                     if c.name == "Bin":
